@@ -68,7 +68,7 @@ def run(ctx):
         sid[0] += 1
         jobs.append({'u': u, 'opts': opts, 'programs': programs, 'history': history, 'out': os.path.join(sdir, s), 'sid': s, 'budget': 60})
         sessions[s] = {'u': u, 'opts': opts, 'programs': {k: {'source': PR.src(v['tree']), 'symbolic': v.get('symbolic', False)} for k, v in programs.items()},
-                       'history': history, 'tags': tags or {}}
+                       'history': history, 'tags': tags or {}, 'bitwise': {k: PR.bitwise_on_numbers(v['tree']) for k, v in programs.items()}}
     # two different registered functions with the same __name__ (closures from one factory)
     for wrap in (False, True):
         for k in range(2 if q else 10):
@@ -199,6 +199,7 @@ def run(ctx):
         elif '.e' in srcs and any(ch.isdigit() or ch == ')' or ch == ' ' for ch in srcs.split('.e', 1)[1][:1] + ' '):
             mech = 'coefficient_access'
         fp = {'kind': 'prog', 'clause': clause, 'mechanism': mech, 'symbolic': bool(pd.get('symbolic')), 'raised': ev['raised']}
+        fp['bitwise_on_numbers'] = bool(sessions[header['sid']].get('bitwise', {}).get(ev['name']))
         fp.update(sessions[header['sid']].get('tags', {}))
         ctx.report(f"session {header['sid']} {ev['name']} = {srcs} (symbolic={fp['symbolic']}, wrapper={bool(header['opts'].get('wrapper'))}) on keys "
                    f"{[a['keys'] for a in ev['args']]}: {clause}" + (f" (raised {ev['raised']})" if ev['raised'] else ''),
